@@ -340,8 +340,12 @@ flexrule	:  '^' rule
 					lwarn(
 			"all start conditions already have <<EOF>> rules" );
 
-				else
-					build_eof_action();
+				/* Even a rule that is left without a start
+				 * condition has an action, which must be
+				 * set up (it becomes dead code) or its text
+				 * runs into the preceding action.
+				 */
+				build_eof_action();
 				}
 			}
 
